@@ -373,10 +373,23 @@ func checkSessions(c *core.Ctx, sessions [][]int) {
 const skippedPath = "only.io/skipped/ref"
 const chainedPath = "only.io/chained/ref"
 
+// mismatchPath is a package whose clause says `package restclient` (the directory says client)
+const mismatchPath = "x.io/test/lib/client"
+
+func declaredName(path string) string {
+	if path == mismatchPath {
+		return "restclient"
+	}
+	if n := path[strings.LastIndex(path, "/")+1:]; validName(n) && !token.IsKeyword(n) {
+		return n
+	}
+	return ""
+}
+
 func checkFile(c *core.Ctx, seqs [][]int) {
 	dir := pipe.TempDir("c03")
 	defer os.RemoveAll(dir)
-	t := pipe.Tree{"go.mod": pipe.GoMod("x.io/test", "1.24")}
+	t := pipe.Tree{"go.mod": pipe.GoMod("x.io/test", "1.24"), "lib/client/client.go": "package restclient\n\ntype X struct{}\n"}
 	byType := map[string]pipe.Action{}
 	for i, seq := range seqs {
 		name := fmt.Sprintf("k%04d", i)
@@ -385,6 +398,9 @@ func checkFile(c *core.Ctx, seqs [][]int) {
 		for _, pi := range seq {
 			imps = append(imps, cpaths[pi])
 		}
+		// one more package whose package clause differs from its directory name (an import spec without a
+		// name would bind the clause name, not the name the body uses)
+		imps = append(imps, mismatchPath)
 		// one more package is referred to only at the root of longer selector chains
 		byType["x.io/test/p/"+name+".T"] = pipe.Action{Imports: imps, ChainImports: []string{chainedPath}}
 		// a second type refers to one more package and then returns ErrSkip: whether its text is kept is
@@ -422,7 +438,9 @@ func checkFile(c *core.Ctx, seqs [][]int) {
 		specs := map[string]string{} // name -> path
 		for _, im := range f.Imports {
 			p, _ := strconv.Unquote(im.Path.Value)
-			n := ""
+			// a spec without a name binds the name of the package clause: known to the harness for the
+			// packages it made up (the last path element where that is an identifier), unknown otherwise
+			n := declaredName(p)
 			if im.Name != nil {
 				n = im.Name.Name
 			}
@@ -447,7 +465,7 @@ func checkFile(c *core.Ctx, seqs [][]int) {
 				return true
 			}
 			idx, err := strconv.Atoi(parts[1])
-			if err != nil || idx >= len(seq) {
+			if err != nil || idx > len(seq) {
 				return true
 			}
 			sel, ok := vs.Type.(*ast.SelectorExpr)
@@ -457,7 +475,10 @@ func checkFile(c *core.Ctx, seqs [][]int) {
 			}
 			q := sel.X.(*ast.Ident).Name
 			used[q] = true
-			wantPath := cpaths[seq[idx]]
+			wantPath := mismatchPath
+			if idx < len(seq) {
+				wantPath = cpaths[seq[idx]]
+			}
 			if len(parts) > 2 && parts[2] == "U" {
 				wantPath = skippedPath
 				keptSkipped = true
@@ -507,6 +528,7 @@ func checkFile(c *core.Ctx, seqs [][]int) {
 			want[skippedPath] = true
 		}
 		want[chainedPath] = true
+		want[mismatchPath] = true
 		if len(specs) != len(want) {
 			c.Fail("", cs, "import block has %d entries, %d distinct packages were referenced: %v", len(specs), len(want), specs)
 		}
